@@ -45,11 +45,13 @@ def _sheet_text(r):
     if r.random() < 0.3:
         parts.append('@charset "utf-8";')
     if r.random() < 0.35:
-        parts.append("/* first */")
+        parts.append(r.choice(["/* first */", "@x-head y;", "/* first */ @x-head y;"]))
     for _ in range(r.choice([0, 0, 1, 2])):
         parts.append(G.import_rule(r, hrefs=("a.css", "b.css")))
+        if r.random() < 0.25:
+            parts.append(r.choice(["@x-between y;", "/* between */"]))  # allowed anywhere, also between @import rules
     if r.random() < 0.3:
-        parts.append("/* mid */")
+        parts.append(r.choice(["/* mid */", "@x-mid y;"]))
     for _ in range(r.choice([0, 0, 1, 2])):
         parts.append(G.namespace_rule(r))
     for _ in range(r.randrange(0, 5)):
